@@ -165,10 +165,12 @@ Print Assumptions C05_two_runs_check_sound.
 Example C05_two_runs_witness :
   two_runs_base_checkb (task_of_table BaseEx.tasks3) (ordered_of_pairs BaseEx.order3) BaseEx.seq3 BaseEx.par3 BaseEx.f3 1%Z = true.
 Proof. exact BaseEx.check3. Qed.
-(* the hypothesis [keys_distinct] cannot be dropped: two sibling suites SHARING A RANK (two directories without a module: both
-   rank 0) start independently, and the faithful writer model lists them in the order their SuiteStart events arrive
-   (sorted(..., key=rank) is stable).  Same events, dependent pairs in the same order, different reports: the known finding
-   F24 (report-differs:order-of-suites-sharing-a-rank), replayed on the real runner by the check on every run. *)
+(* the hypothesis [keys_distinct] cannot be dropped: two sibling suites whose sort keys are EQUAL start independently, and the
+   writer model lists them in the order their SuiteStart events arrive (a stable sort).  Same events, dependent pairs in the
+   same order, different reports.  This was the real writer's behaviour for sibling suites sharing a rank (finding F24: two
+   directories without a module are both rank 0); since the repair (ec34960) the writer sorts sibling suites by
+   (rank, declared position) -- the key the harness encodes into n_rank for live streams -- so the keys of siblings are
+   distinct in every run and the premise is an invariant; the witness is replayed on the real runner on every run. *)
 Theorem C05_equal_rank_siblings_refuted :
   exists (s1 s2 : list (nat * event)) r1 r2,
     NoDup (map fst s1) /\ Permutation.Permutation s1 s2 /\
